@@ -588,7 +588,7 @@ func main() {
 			res.Eval("replay2", true)
 			if m, tc := tornManifestProbe(res, 12000); m != "" {
 				fmt.Println("replay fails:", m)
-				res.ViolateKnown(m, tc, tornManifestID)
+				res.Violate(m, tc)
 			} else {
 				fmt.Println("replay passes")
 			}
@@ -763,14 +763,14 @@ func main() {
 	}
 	close(jobs)
 	wg.Wait()
-	// directed: manifest records torn at 32 KiB block boundaries (a known finding, see mantorn.go)
+	// directed: manifest records torn at 32 KiB block boundaries (see mantorn.go)
 	{
 		n := 12000
 		if a.Thorough() {
 			n = 40000
 		}
 		if m, tc := tornManifestProbe(res, n); m != "" {
-			res.ViolateKnown(m, tc, tornManifestID)
+			res.Violate(m, tc)
 		}
 	}
 	// (K) dedicated workloads: no reopen, default manifest size (the model has neither)
